@@ -531,6 +531,17 @@ class Extractor:
                 owner = [mod for mod in self.repo.modules.values() if e.id in mod.assign_nodes and mod.assigns.get(e.id) is r_[2]]
                 if owner and len(owner[0].assign_nodes[e.id]) == 1:
                     return [(st, Lit(r_[2].value))]
+            if r_ and r_[0] == 'var' and isinstance(r_[2], (ast.List, ast.Tuple)) and not getattr(self, '_in_const', False):
+                # a module-level constant list of code nodes (built once, only read): what it is bound to
+                owner = [mod for mod in self.repo.modules.values() if e.id in mod.assign_nodes and mod.assigns.get(e.id) is r_[2]]
+                if owner and len(owner[0].assign_nodes[e.id]) == 1:
+                    self._in_const = True
+                    try:
+                        return self.ev(r_[2], st, m)
+                    except AnalysisError:
+                        pass
+                    finally:
+                        self._in_const = False
             return [(st, ('global', e.id))]
         if isinstance(e, ast.Attribute):
             out = []
